@@ -52,7 +52,7 @@ Proof.
 Qed.
 
 Definition ctor_func_body (u c:string) : list var * list gstmt :=
-  (["v"%string], [GSReturn (GStructLit (case_struct u c) [("Value"%string, GVar "v"%string)])]).
+  (["v"%string], [GSReturn (GStructLit (case_struct u c) ["Value"%string] [("Value"%string, GVar "v"%string)])]).
 
 (** within one union *)
 Lemma one_union_func u : forall cases c,
@@ -73,7 +73,7 @@ Proof.
 Qed.
 Lemma one_union_var u : forall cases c,
   NoDup (case_names (u, cases)) -> In (c, false) cases ->
-  lookup (ctor_name u c) (ctor_vars_of (u, cases)) = Some (GStructLit (case_struct u c) []) /\
+  lookup (ctor_name u c) (ctor_vars_of (u, cases)) = Some (GStructLit (case_struct u c) [] []) /\
   ~ In (ctor_name u c) (map fst (ctor_funcs_of (u, cases))).
 Proof.
   unfold case_names, ctor_vars_of, ctor_funcs_of; cbn [fst snd].
@@ -126,7 +126,7 @@ Qed.
 
 Lemma all_unions_var : forall us u cases c,
   NoDup (all_ctor_names us) -> In (u, cases) us -> In (c, false) cases ->
-  lookup (ctor_name u c) (flat_map ctor_vars_of us) = Some (GStructLit (case_struct u c) []) /\
+  lookup (ctor_name u c) (flat_map ctor_vars_of us) = Some (GStructLit (case_struct u c) [] []) /\
   ~ In (ctor_name u c) (map fst (flat_map ctor_funcs_of us)).
 Proof.
   induction us as [|u0 us IH]; intros u cases c N Iu Ic; [destruct Iu|].
@@ -200,7 +200,7 @@ Qed.
 
 Lemma prog_ctor0 : forall u c, ok u c false ->
   lookup (ctor_name u c) gfuncs = None /\
-  lookup (ctor_name u c) gvars = Some (GStructLit (case_struct u c) []).
+  lookup (ctor_name u c) gvars = Some (GStructLit (case_struct u c) [] []).
 Proof.
   destruct Hp as (Nd & Wf & Wm). intros u c (cases & Iu & Ic).
   destruct (all_unions_var _ _ _ _ Nd Iu Ic) as (L & NI). split; [|exact L].
